@@ -51,11 +51,13 @@ def run(job):
     if verif_hooks is not None and hasattr(verif_hooks, "reset"):
         verif_hooks.reset()
     out = {"id": job["id"]}
-    if job.get("pre_src"):   # compile an unrelated program first, in this very process (C19: second in-process compile)
+    pre = ([job["pre_src"]] if job.get("pre_src") else []) + list(job.get("pre_srcs") or [])
+    for ps in pre:   # compile other programs first, in this very process (C19: a later in-process compile)
         try:
-            compile_dsl_source(job["pre_src"], use_json=True)
+            compile_dsl_source(ps, use_json=True)
         except BaseException:  # noqa: BLE001
             pass
+    if pre:
         if verif_hooks is not None and hasattr(verif_hooks, "reset"):
             verif_hooks.reset()
     old_cwd = os.getcwd()
